@@ -138,6 +138,15 @@ func (c *matcherCompiler) compileStruct(v reflect.Value) Matcher {
 
 	for i := 0; i < typ.NumField(); i++ {
 		fields[i] = c.compile(v.Field(i))
+		if typ == goast.FieldListType {
+			// The parentheses around a single unnamed result are
+			// optional: "func f() error" and "func f() (error)"
+			// are the same declaration, and "(..., error)" in a
+			// patch stands for both.
+			if pm, ok := fields[i].(PosMatcher); ok {
+				fields[i] = optionalPosMatcher{pm}
+			}
+		}
 	}
 
 	return StructMatcher{
